@@ -74,6 +74,7 @@ from halmos.contract import (
     OP_BLOCKHASH,
     OP_BYTE,
     OP_CALL,
+    OP_CALLCODE,
     OP_CALLDATACOPY,
     OP_CALLDATALOAD,
     OP_CALLDATASIZE,
@@ -2377,6 +2378,9 @@ class SEVM:
                 # TODO: revert if context is static
                 # NOTE: we cannot use `to_alias` here because it could be None
                 self.transfer_value(ex, pranked_caller, to, fund, condition)
+            elif op == OP_CALLCODE:
+                # balances are unchanged, but the sender must still be able to afford the value
+                self.transfer_value(ex, pranked_caller, pranked_caller, fund, condition)
 
         def call_known(to: Address) -> None:
             # backup current state
